@@ -40,6 +40,8 @@ type ClientOperationTemplate struct {
 
 	IsRequestBody bool
 	IsBodyReader  bool
+	// RequestContentType - media type of the request body sent by the client
+	RequestContentType string
 
 	Responses       []ClientResponseTemplate
 	DefaultResponse *ClientResponseTemplate
@@ -62,8 +64,10 @@ func NewClientOperation(o *Operation) ClientOperationTemplate {
 	if requestBody, ok := o.Operation.RequestBody.Get(); ok {
 		if requestBody.Value().Content.Has("application/json") {
 			c.IsRequestBody = true
+			c.RequestContentType = "application/json"
 		} else if len(requestBody.Value().Content.List) > 0 {
 			c.IsBodyReader = true
+			c.RequestContentType = requestBody.Value().Content.List[0].Name
 		}
 	}
 
